@@ -444,6 +444,8 @@ class Interp:
             return len(v.items) > 0
         if isinstance(v, DictV) and v.items is not None:
             return len(v.items) > 0
+        if isinstance(v, SetV) and v.items is not None:
+            return len(v.items) > 0
         if isinstance(v, (ObjV, FuncV, ClassV, ExtV, BoundV)) :
             if isinstance(v, ObjV) and v.payload is not None:
                 return self.truth(v.payload)
